@@ -53,9 +53,9 @@ UsesThickness(dim, kind) == dim = 2 /\ kind \in {"surfLoad", "volumeLoad", "pres
 
 DensPairs == {<<"one", "zero">>, <<"lin", "one">>, <<"quad", "lin">>}
 Cases ==
-    {[dim |-> d, kind |-> k, region |-> r, dens |-> dp, thick |-> t, form |-> f, stray |-> s, dup |-> dp2] :
+    {[dim |-> d, kind |-> k, region |-> r, dens |-> dp, thick |-> t, form |-> f, stray |-> s, dup |-> dp2, flood |-> fl] :
         d \in Dims, k \in Kinds2 \cup Kinds3, r \in {"right", "top", "left", "bulk", "xmax", "zmax", "ymin", "edge"}, dp \in DensPairs, t \in Thicks,
-        f \in {"const", "func", "array"}, s \in BOOLEAN, dp2 \in BOOLEAN}
+        f \in {"const", "func", "array"}, s \in BOOLEAN, dp2 \in BOOLEAN, fl \in BOOLEAN}
 Valid(c) ==
     /\ c.region \in RegFor(c.dim, c.kind)
     /\ c.dim = 3 => c.thick = One
@@ -66,6 +66,9 @@ Valid(c) ==
     (* entered twice with a Bc_Init() in between, as a load-stepping loop does) - the total per unknown is the same        *)
     /\ (c.kind = "point") => (c.dens = <<"one", "zero">> /\ c.form \in {"const", "array"})
     /\ (c.stray) => c.kind \in {"lineLoad", "surfLoad"}
+    (* flood: the stray nodes are ALL the nodes that lie on no boundary, on a mesh fine enough for the selection to hold more nodes *)
+    (* than the boundary has - the loaded region is still the one the boundary nodes of the selection bound                          *)
+    /\ (c.flood) => (c.stray /\ c.form # "array" /\ c.thick = One)
     (* a selection may list a node twice (two node sets sharing a corner concatenated): the loaded region is the same *)
     /\ (c.dup) => (c.form # "array" /\ ~c.stray /\ c.kind # "point")
 
